@@ -356,6 +356,23 @@ DefChannelRates(spec, set, theta, c) ==
   [b \in 1..Len(ch.samples[1].data) |->
       ClipR(set.clipB, RSumSeq([j \in 1..Len(ch.samples) |-> DefSampleRate(set, ch.samples[j], theta, b)]))]
 
+(* Symbolic lane: at a non-integer alpha the multiplicative interpolation codes (1, 4) are transcendental.  The rate of   *)
+(* a sample is then  coef * prod atoms  with an exact rational coef (all other factors times nominal plus shifts) and one *)
+(* atom [lo, hi, alpha] per normsys modifier; the leaf evaluator supplies the atoms' values (code 1: power; code 4: power  *)
+(* outside the core, the A_inverse polynomial inside).  No clipping in this lane.                                         *)
+DefSampleSym(set, sm, theta, b) ==
+  LET adds == [k \in 1..Len(sm.mods) |-> IF IsAdditive(sm.mods[k].type)
+                   THEN DefFactorOrDelta(set, sm, sm.mods[k], theta, b) ELSE RZero]
+      facs == [k \in 1..Len(sm.mods) |-> IF IsAdditive(sm.mods[k].type) \/ sm.mods[k].type = NORMSYS THEN ROne
+                   ELSE DefFactorOrDelta(set, sm, sm.mods[k], theta, b)]
+      nsK  == {k \in 1..Len(sm.mods) : sm.mods[k].type = NORMSYS}
+  IN [coef |-> RMul(RProdSeq(facs), RAdd(sm.data[b], RSumSeq(adds))),
+      atoms |-> [q \in 1..Cardinality(nsK) |-> LET k == SortSet(nsK)[q] IN
+                   [lo |-> sm.mods[k].d1[1], hi |-> sm.mods[k].d2[1], alpha |-> theta[sm.mods[k].name][1]]]]
+DefChannelSym(spec, set, theta, c) ==
+  LET ch == Chan(spec, c) IN
+  [b \in 1..Len(ch.samples[1].data) |-> [j \in 1..Len(ch.samples) |-> DefSampleSym(set, ch.samples[j], theta, b)]]
+
 \* theta (by name) extracted from a flat row through a layout (start, size per name)
 ThetaOf(cfg, pars, row) == [n \in Range(cfg.parOrder) |-> [i \in 1..cfg.psize[n] |-> pars[Sel(cfg, n, row)[i]]]]
 
